@@ -81,7 +81,7 @@ func (p *Path) binop(op token.Token, a, b Value, ta, tb types.Type, pos token.Po
 			wy = y.Sort.W
 		}
 		if sy {
-			if !p.fork(F.BvSge(y, F.BVConst64(0, wy))) {
+			if !p.forkLikely(F.BvSge(y, F.BVConst64(0, wy))) {
 				p.gopanic("runtime error: negative shift amount")
 			}
 		}
@@ -111,7 +111,7 @@ func (p *Path) binop(op token.Token, a, b Value, ta, tb types.Type, pos token.Po
 	case token.MUL:
 		return F.BvMul(x, y)
 	case token.QUO, token.REM:
-		if !p.fork(F.Ne(y, F.BVConst64(0, w))) {
+		if !p.forkLikely(F.Ne(y, F.BVConst64(0, w))) {
 			p.gopanic("runtime error: integer divide by zero")
 		}
 		switch {
@@ -609,7 +609,7 @@ func (p *Path) rangeIter(x Value, t types.Type) Value {
 		// only valid if all bytes are ASCII on this path: check and fork
 		it := &iterV{}
 		for i, b := range v.B {
-			if !p.fork(p.F.BvUlt(b, p.F.BVConst64(utf8.RuneSelf, 8))) {
+			if !p.forkLikely(p.F.BvUlt(b, p.F.BVConst64(utf8.RuneSelf, 8))) {
 				p.unsupported("range over symbolic non-ASCII string")
 			}
 			it.strIdx = append(it.strIdx, i)
